@@ -405,6 +405,13 @@ def try_known(n):
     inner = _unblock(e)
     if not isinstance(inner, dict):
         return None
+    if inner.get("k") == "block" and inner.get("stmts") and inner.get("expr") is not None and not inner.get("label"):
+        # `{ s1; s2; v }?`  ==  `{ s1; s2; v? }` (an expanded helper that ends in Ok(..) / Err(..))
+        t = {"k": "try", "ty": n.get("ty"), "sp": n.get("sp"), "e": inner["expr"]}
+        r = try_known(t)
+        if r is None:
+            return None
+        return dict(inner, expr=r, ty=n.get("ty"))
     if inner.get("k") == "if" and inner.get("else") is not None and inner.get("from_combinator"):
         out = dict(inner)
         out["ty"] = n.get("ty")
